@@ -14,7 +14,8 @@ EXPL = ("Decided on the MIR control-flow graphs: (R-MARK) in every public Writer
         "(R-CONSUME) the build entry consumes every updated mark (del_current on every loop iteration over the whole "
         "updated prefix of its own index) and (R-PUBLISH) every success path of the build writes "
         "Metadata{distance: D::name()} under the metadata key; clear() wipes the whole index prefix; the metric-change "
-        "helper deletes the metadata key; the metric names are pairwise distinct. NOT decided: LMDB semantics of the calls.")
+        "helper deletes the metadata key; the metric names are pairwise distinct. NOT decided: LMDB semantics of the calls."
+        " R-OPEN is decided as a truth table: Reader::open is evaluated by the finite-domain evaluator (sa/enumeval.py) under the 8 combinations of {metadata present, stored name equals D::name(), updated scan non-empty}; it must end in Ok exactly for (present, equal, empty) and in MissingMetadata / UnmatchingDistance / NeedBuild otherwise, whatever the spelling (match, let-else, ok_or, helpers).")
 
 
 def item_mutators(F):
